@@ -16,6 +16,7 @@ import (
 	"os"
 	"path/filepath"
 	"sort"
+	"strconv"
 	"strings"
 	"testing"
 	"time"
@@ -99,7 +100,11 @@ func suValue(vseed int64, topic string, id int) any {
 		n := 1 + r.Intn(3)
 		fts := make([]FullTriggerState, n)
 		for i := range fts {
-			fts[i] = FullTriggerState{ChannelIndices: ints(1+r.Intn(3), 64), TriggerState: TriggerState{
+			chans := []int{} // disjoint groups, as ComputeFullTriggerState produces them
+			for k := 1 + r.Intn(3); k > 0; k-- {
+				chans = append(chans, i*20+r.Intn(20))
+			}
+			fts[i] = FullTriggerState{ChannelIndices: chans, TriggerState: TriggerState{
 				AutoTrigger: r.Intn(2) == 0, AutoDelay: time.Duration(r.Intn(1000000)) * time.Microsecond, AutoVetoRange: RawType(r.Intn(1000)),
 				LevelTrigger: r.Intn(2) == 0, LevelRising: r.Intn(2) == 0, LevelLevel: RawType(r.Intn(65536)),
 				EdgeTrigger: r.Intn(2) == 0, EdgeRising: r.Intn(2) == 0, EdgeFalling: r.Intn(2) == 0, EdgeLevel: int32(r.Intn(100000) - 50000),
@@ -255,12 +260,22 @@ func suRestored() map[string]string {
 	if err := viper.UnmarshalKey("writing", &ws); err == nil {
 		out["WRITING"] = suCanon(map[string]string{"BasePath": ws.BasePath})
 	}
+	// trigger settings: restored by the REAL consumer of the saved topic (AnySource.PrepareRun of a freshly configured
+	// source), read back per channel from the processors it builds; the saved file only tells which channels to look at
 	var fts []FullTriggerState
 	if err := viper.UnmarshalKey("trigger", &fts); err == nil {
-		for i := range fts {
-			fts[i].EdgeMulti = false
+		ts := NewTriangleSource()
+		per := map[string]TriggerState{}
+		if err := ts.Configure(&TriangleSourceConfig{Nchan: 70, SampleRate: 10000, Min: 100, Max: 200}); err == nil && ts.PrepareChannels() == nil && ts.PrepareRun(10, 40) == nil {
+			for _, g := range fts {
+				for _, ch := range g.ChannelIndices {
+					if ch >= 0 && ch < len(ts.processors) {
+						per[strconv.Itoa(ch)] = ts.processors[ch].TriggerState
+					}
+				}
+			}
 		}
-		out["TRIGGER"] = suCanon(fts)
+		out["TRIGGER"] = suCanon(per)
 	}
 	var mapFileName string
 	if err := viper.UnmarshalKey("tesmapfile", &mapFileName); err == nil {
@@ -278,13 +293,15 @@ func suSentCanon(topic string, v any) string {
 	case "WRITING":
 		return suCanon(map[string]string{"BasePath": v.(*WritingState).BasePath})
 	case "TRIGGER":
-		src := v.([]FullTriggerState)
-		fts := make([]FullTriggerState, len(src))
-		copy(fts, src)
-		for i := range fts {
-			fts[i].EdgeMulti = false
+		per := map[string]TriggerState{}
+		for _, g := range v.([]FullTriggerState) {
+			st := g.TriggerState
+			st.EdgeMulti = false
+			for _, ch := range g.ChannelIndices {
+				per[strconv.Itoa(ch)] = st
+			}
 		}
-		return suCanon(fts)
+		return suCanon(per)
 	}
 	return suCanon(v)
 }
@@ -525,7 +542,7 @@ func TestVerifStatusReplay(t *testing.T) {
 		}
 		vEmit(vmap{"ev": "Start", "scen": id, "origin": sc.Origin, "main0": "empty", "read": read0, "replay": true})
 		vEmit(vmap{"ev": "Pub", "t": "VERIFMARK", "v": 0}) // the marker is a topic like any other: it is replayed by SENDALL
-		ids := map[string]int{} // "topic\x00json" -> value id
+		ids := map[string]int{}                            // "topic\x00json" -> value id
 		sent := map[string]string{}
 		lastChange := time.Now()
 		for _, st := range sc.Steps {
